@@ -45,7 +45,7 @@ def effects(f, R):
             ext = CA.extents.get(b['$i'][1], [])
 
             def full(comp):
-                if comp[0] == 'sub' and comp[2] == ('k', 0) and common.is_usize_const(comp[1]):
+                if comp[0] == 'sub' and comp[2] == ('k', 0) and common.is_usize_const(comp[1], 'K'):
                     return True
                 # a zip over the whole arrays: both are GenericArray<_, K>, so the shorter one still has K elements
                 return comp[0] == 'len' and comp[1] in (b['$arr'], c['$counts'])
